@@ -28,7 +28,10 @@ def std_kwargs(cfg):
         if k == "flow_config":
             kw["flow_config"] = {**TINY_FLOW, **v}
         elif k == "training_config":
-            kw["training_config"] = {**TINY_TRAIN, **v}
+            if v is None:
+                kw.pop("training_config", None)   # older layout: training options are given inside flow_config
+            else:
+                kw["training_config"] = {**TINY_TRAIN, **v}
         else:
             kw[k] = v
     return kw
